@@ -412,6 +412,10 @@ Ev_HSendRet(k, res) ==
           hRecvd, hRecvStarted, hSendStarted, cRecvd, cRecvStarted,
           cHdrStarted, hdrAcc, trlAcc, hState, hStatus, cTerm, winddown, hSawEOF>>
 
+\* operation number 0 stands for a header / trailer operation with EMPTY
+\* metadata: it changes the state machine (headers sent) but no view
+Ext(acc, i) == IF i = 0 THEN acc ELSE Append(acc, i)
+
 Ev_HSetHeaderCall(i) ==
   /\ hPend' = <<"sethdr", i, hdrSent>>
   /\ UNCHANGED <<kind, tr, reqMd, cctx, fault, cSendStarted, cSendOk, closeSend,
@@ -419,13 +423,16 @@ Ev_HSetHeaderCall(i) ==
           cHdrStarted, hdrAcc, hdrSent, hdrCand, trlAcc, hState,
           hStatus, cTerm, winddown, hSawEOF>>
 
+\* (SetHeader with empty metadata -- number 0 -- sets nothing: like the standard
+\* transport, whose grpc.SetHeader returns nil for it at once, it may be
+\* accepted at any time)
 Chk_HSetHeaderRet(i, ok) ==
-  IF ok THEN V(hdrSent # "yes", "C03", "setheader-accepted-after-headers-sent")
+  IF ok THEN V(hdrSent # "yes" \/ i = 0, "C03", "setheader-accepted-after-headers-sent")
   ELSE V(~(hdrSent = "no" /\ cctx = "live" /\ ~fault /\ ~winddown), "C03", "setheader-refused-before-send")
 
 Ev_HSetHeaderRet(i, ok) ==
-  /\ hdrAcc' = IF ok THEN Append(hdrAcc, i) ELSE hdrAcc
-  /\ hdrCand' = IF ok /\ hdrSent = "maybe" THEN hdrCand \cup {Append(hdrAcc, i)} ELSE hdrCand
+  /\ hdrAcc' = IF ok THEN Ext(hdrAcc, i) ELSE hdrAcc
+  /\ hdrCand' = IF ok /\ hdrSent = "maybe" THEN hdrCand \cup {Ext(hdrAcc, i)} ELSE hdrCand
   /\ hPend' = <<>>
   /\ UNCHANGED <<kind, tr, reqMd, cctx, fault, cSendStarted, cSendOk, closeSend,
           hRecvd, hRecvStarted, hSendStarted, hSendOk, cRecvd, cRecvStarted,
@@ -433,7 +440,7 @@ Ev_HSetHeaderRet(i, ok) ==
 
 Ev_HSendHeaderCall(i) ==
   /\ hPend' = <<"sendhdr", i, hdrSent>>
-  /\ MaybeSend(Append(hdrAcc, i))
+  /\ MaybeSend(Ext(hdrAcc, i))
   /\ UNCHANGED <<kind, tr, reqMd, cctx, fault, cSendStarted, cSendOk, closeSend,
           hRecvd, hRecvStarted, hSendStarted, hSendOk, cRecvd, cRecvStarted,
           cHdrStarted, hdrAcc, trlAcc, hState, hStatus, cTerm, winddown, hSawEOF>>
@@ -444,9 +451,9 @@ Chk_HSendHeaderRet(i, ok) ==
   ELSE V(~(hPend[3] = "no" /\ cctx = "live" /\ ~fault /\ ~winddown), "C03", "sendheader-refused-before-send")
 
 Ev_HSendHeaderRet(i, ok) ==
-  /\ hdrAcc' = IF ok THEN Append(hdrAcc, i) ELSE hdrAcc
+  /\ hdrAcc' = IF ok THEN Ext(hdrAcc, i) ELSE hdrAcc
   /\ IF ok /\ hPend # <<>>
-       THEN DefSend(Append(hdrAcc, i), hPend[3])
+       THEN DefSend(Ext(hdrAcc, i), hPend[3])
        ELSE UNCHANGED <<hdrCand, hdrSent>>
   /\ hPend' = <<>>
   /\ UNCHANGED <<kind, tr, reqMd, cctx, fault, cSendStarted, cSendOk, closeSend,
@@ -459,15 +466,15 @@ Chk_HSendHeaderAtomic(i, ok) ==
   ELSE V(~(hdrSent = "no" /\ cctx = "live" /\ ~fault /\ ~winddown), "C03", "sendheader-refused-before-send")
 
 Ev_HSendHeaderAtomic(i, ok) ==
-  /\ hdrAcc' = IF ok THEN Append(hdrAcc, i) ELSE hdrAcc
-  /\ IF ok THEN DefSend(Append(hdrAcc, i), hdrSent) ELSE UNCHANGED <<hdrCand, hdrSent>>
+  /\ hdrAcc' = IF ok THEN Ext(hdrAcc, i) ELSE hdrAcc
+  /\ IF ok THEN DefSend(Ext(hdrAcc, i), hdrSent) ELSE UNCHANGED <<hdrCand, hdrSent>>
   /\ hPend' = <<>>
   /\ UNCHANGED <<kind, tr, reqMd, cctx, fault, cSendStarted, cSendOk, closeSend,
           hRecvd, hRecvStarted, hSendStarted, hSendOk, cRecvd, cRecvStarted,
           cHdrStarted, trlAcc, hState, hStatus, cTerm, winddown, hSawEOF>>
 
 Ev_HSetTrailerRet(i, ok) ==
-  /\ trlAcc' = IF ok THEN Append(trlAcc, i) ELSE trlAcc
+  /\ trlAcc' = IF ok THEN Ext(trlAcc, i) ELSE trlAcc
   /\ UNCHANGED <<kind, tr, reqMd, cctx, fault, cSendStarted, cSendOk, closeSend,
           hRecvd, hRecvStarted, hSendStarted, hSendOk, cRecvd, cRecvStarted,
           cHdrStarted, hdrAcc, hdrSent, hdrCand, hPend, hState,
